@@ -1586,7 +1586,8 @@ SOURCE_TIES = [{
     "sources": ["deepdiff/diff.py", "deepdiff/deephash.py"],
     "fragment": "deephash.combine_hashes_lists; DeepDiff._get_distance_cache_key, _get_rough_distance_of_hashed_objs, the cache-related statements of "
                 "_get_most_in_common_pairs_in_iterables (the pairs computation in between is one oracle call), _auto_off_cache, _auto_tune_cache, and the "
-                "statements of __init__ that create the cache / the flag / the re-enabling period (the nested DeepDiff and sha256hex are oracles)"}]
+                "statements of __init__ that create the cache / the flag / the re-enabling period and that check / apply cache_purge_level (pinned text) "
+                "(the nested DeepDiff and sha256hex are oracles)"}]
 
 TIE_HEADER = ("From DD Require Import Base.PyStr Lfu.LfuModel DiffIO.MemoModel DiffIO.MemoKeys DiffIO.MemoSrcPrims DiffIO.MemoGlue DiffIO.MemoPairs DiffIO.MemoPairsProofs.\n"
               "From DDGen Require Import CacheGen.\nLocal Open Scope Z_scope.\n"
